@@ -716,8 +716,15 @@ def gen_C13_directed(rng, k):
     if rng.random() < 0.5:
         P.append(C.read(0, rng.choice(["deltas", "values", "frame"])))
     d = F(0)
-    kind = rng.choice(["shift", "shift", "copy", "neg", "addc", "mulc", "clipnone", "wherenone", "fills", "mask1", "sub0", "diff", "addself"])
-    if kind == "shift":
+    kind = rng.choice(["shift", "shift", "copy", "neg", "addc", "mulc", "rmulc", "clipnone", "wherenone", "fills", "mask1", "sub0",
+                       "diff", "addself", "agg", "agg", "agg1"])
+    if kind in ("agg", "agg1"):       # collection aggregates (their initial value comes out of a numpy reduction)
+        g2 = rand_leaf(rng, maxn=3, nan=0.0, grid=1, span=6, vals=[F(j) for j in range(-1, 3)])
+        P.append(leaf_stmt(2, g2, c))
+        P.append(C.agg(1, rng.choice(["sum", "mean", "median", "min", "max", "logical_or", "logical_and"]), [0, 2] if kind == "agg" else [0]))
+    elif kind == "rmulc":
+        P.append(C.bin_(1, "mul", C.cst(1), C.reg(0)))
+    elif kind == "shift":
         d = rng.choice([F(1), F(-1), F(2), F(10)])
         P.append(C.shift(1, 0, d))
     elif kind == "copy":
@@ -745,14 +752,20 @@ def gen_C13_directed(rng, k):
         P.append(C.bin_(1, "add", C.reg(0), C.reg(0)))
     pts0 = f[0]
     pts1 = [p + d for p in pts0]
-    P += [C.read(0, "frame"), C.read(1, "frame")]
+    regs = [0, 1]
+    if rng.random() < 0.4:        # a function derived from the result: siblings and grand-children share nothing either
+        k2 = rng.choice(["copy", "copy", "clipnone", "shift0", "fills", "neg"])
+        P.append({"copy": C.un(3, "copy", 1), "clipnone": C.clip(3, 1, None, None), "shift0": C.shift(3, 1, F(0)),
+                  "fills": C.fills(3, 1, 0), "neg": C.un(3, "neg", 1)}[k2])
+        regs.append(3)
+    P += [C.read(r_, "frame") for r_ in regs]
     for _ in range(rng.randint(1, 3)):
-        tgt = rng.choice([0, 1])
+        tgt = rng.choice(regs)
         pts = pts0 if tgt == 0 else pts1
-        a = rng.choice(pts)
-        b = rng.choice(pts + [None, a + F(1, 2)])
+        a = rng.choice(pts + [None])        # None: the unbounded-left path bumps the initial value in place
+        b = rng.choice(pts + [None, (a if a is not None else pts[0]) + F(1, 2)])
         P.append(C.layer_s(tgt, a, b, rng.choice([F(1), F(5), F(-1)])))
-        P += [C.read(0, "frame"), C.read(1, "frame"), C.read(0, "deltas"), C.read(1, "deltas")]
+        P += [C.read(r_, "frame") for r_ in regs] + [C.read(r_, "deltas") for r_ in regs]
     fl = flav(rng, has_nan(f))
     return mk(f"C13/directed/{kind}/{k}", P, fl, tags=["directed-" + kind])
 
